@@ -535,6 +535,8 @@ class eval_abs(object):
                '>>>':eval_op_rotr,
                '<<<c_rez':eval_op_rotl_wflag_rez,
                '<<<c_cf':eval_op_rotl_wflag_cf,
+               '>>>c_rez':eval_op_rotr_wflag_rez,
+               '>>>c_cf':eval_op_rotr_wflag_cf,
                '<<':eval_op_lshift,
                '>>':eval_op_rshift,
                'a>>':eval_op_arshift,
